@@ -213,10 +213,48 @@ func (x *wireExtractor) sigWithVariadic(obj *types.Func, args []ast.Expr) []wire
 
 func (x *wireExtractor) block(list []ast.Stmt) []wireItem {
 	var out []wireItem
-	for _, s := range list {
+	for i, s := range list {
+		// writer: `if cond { return <success> }` makes everything after it in
+		// this block an optional emission, exactly like `if !cond { … }`
+		if ifs, ok := s.(*ast.IfStmt); ok && ifs.Else == nil && x.isSuccessReturnOnly(ifs.Body) {
+			if ifs.Init != nil {
+				out = append(out, x.stmt(ifs.Init)...)
+			}
+			out = append(out, x.expr(ifs.Cond)...)
+			rest := x.block(list[i+1:])
+			if len(rest) > 0 {
+				out = append(out, wireItem{Kind: "ALT", Items: rest, pos: ifs.Pos()})
+			}
+			return out
+		}
 		out = append(out, x.stmt(s)...)
 	}
 	return out
+}
+
+// isSuccessReturnOnly: the block emits nothing and ends in a return that
+// reports success (no result, or a nil error result).
+func (x *wireExtractor) isSuccessReturnOnly(b *ast.BlockStmt) bool {
+	if len(b.List) == 0 {
+		return false
+	}
+	ret, ok := b.List[len(b.List)-1].(*ast.ReturnStmt)
+	if !ok {
+		return false
+	}
+	if len(x.block(b.List[:len(b.List)-1])) > 0 {
+		return false
+	}
+	if len(ret.Results) == 0 {
+		// naked return: success only when the function has no error result we can see; be conservative
+		return false
+	}
+	last := ast.Unparen(ret.Results[len(ret.Results)-1])
+	if !isErrorType(x.info.TypeOf(last)) && x.info.TypeOf(last) != types.Typ[types.UntypedNil] {
+		return false
+	}
+	id, ok := last.(*ast.Ident)
+	return ok && id.Name == "nil"
 }
 
 func (x *wireExtractor) stmt(s ast.Stmt) []wireItem {
